@@ -84,9 +84,12 @@ impl ExecutorBuilder {
 
             PhysicalOperator::NestedLoopJoin(join_op) => {
                 require_children(children, 2, "NestedLoopJoin")?;
+                let left_cols = children[0].output_schema().num_columns();
                 let left = build_child(&children[0])?;
                 let right = build_child(&children[1])?;
-                Ok(Box::new(NestedLoopJoin::new(join_op, left, right)))
+                Ok(Box::new(
+                    NestedLoopJoin::new(join_op, left, right).with_left_cols(left_cols),
+                ))
             }
             PhysicalOperator::HashJoin(join_op) => {
                 require_children(children, 2, "HashJoin")?;
